@@ -90,6 +90,7 @@ namespace OpenMEEG {
         }
 
         void load(const char* filename) {
+            m_tank.clear(); // The readers only add entries: nothing of a previous content must survive.
             maths::ifstream ifs(filename);
             try {
                 ifs >> maths::format(filename,maths::format::FromSuffix) >> *this;
